@@ -460,8 +460,119 @@ fn run_ruis(prog: &Prog, schedule: Vec<usize>, random: bool, seed: u64) -> Outco
     sched::execute(bodies, schedule, random, seed, vec![r])
 }
 
+// ---------------------------------------------------------------------------------------------
+// Container (C10): the port registry; owner id of thread i is 100 + i, values are [u64; W] words 100 v + k
+fn gen_container_prog(rng: &mut Rng) -> Prog {
+    let cap = rng.range(1, 3);
+    let width = *rng.pick(&[1usize, 2]);
+    let nw = rng.range(1, 2) as usize;
+    let victim = if rng.chance(35) { Some(rng.below(nw as u64) as usize) } else { None };
+    let mut threads = vec![];
+    let mut v = 0;
+    for i in 0..nw {
+        let mut ops = vec![];
+        let mut mine = 0i32;
+        for _ in 0..rng.range(1, 4) {
+            match rng.below(12) {
+                0..=5 => { v += 1; ops.push(format!("add {v}")); mine += 1; }
+                6..=7 if mine > 0 => { ops.push(format!("remove {}", rng.below(mine as u64))); mine -= 1; }
+                8 if mine > 0 => { ops.push(format!("remove_lock {}", rng.below(mine as u64))); mine -= 1; }
+                9..=10 if victim.is_some() && victim != Some(i) => {
+                    ops.push(format!("{} {}", if rng.chance(60) { "recover" } else { "recover_lock" }, 100 + victim.unwrap()));
+                }
+                _ => { v += 1; ops.push(format!("add {v}")); mine += 1; }
+            }
+        }
+        if victim == Some(i) {
+            ops.truncate(2);
+            ops.push("die".to_string());
+        }
+        threads.push(ops);
+    }
+    // the refreshing reader (it may also recover the dead owner)
+    let mut r = vec![];
+    for _ in 0..rng.range(1, 3) {
+        r.push("update".to_string());
+    }
+    if let Some(vi) = victim {
+        if rng.chance(50) { r.insert(rng.below(r.len() as u64 + 1) as usize, format!("recover {}", 100 + vi)); }
+    }
+    threads.push(r);
+    Prog { header: format!("container cap={cap} width={width}"), threads }
+}
+
+fn run_container<const W: usize>(prog: &Prog, schedule: Vec<usize>, random: bool, seed: u64) -> Outcome {
+    use iceoryx2_bb_lock_free::mpmc::container::{Container, ContainerHandle};
+    use iceoryx2_bb_lock_free::mpmc::robust_unique_index_set::OwnerId;
+    use iceoryx2_bb_lock_free::mpmc::unique_index_set_enums::{ReleaseMode, ReleaseState};
+    let cap = hget(&prog.header, "cap");
+    let words = |v: u64| -> [u64; W] { core::array::from_fn(|k| 100 * v + k as u64) };
+    let blk = Shared::new(RelocBlock::<Container<[u64; W]>>::new(cap, 0));
+    let r = blk.get().range();
+    let dead_flags: Arc<Vec<std::sync::atomic::AtomicBool>> = Arc::new((0..prog.threads.len()).map(|_| std::sync::atomic::AtomicBool::new(false)).collect());
+    for (i, ops) in prog.threads.iter().enumerate() {
+        if ops.first().map(|s| s.as_str()) == Some("die") {
+            dead_flags[i].store(true, std::sync::atomic::Ordering::SeqCst);
+        }
+    }
+    let mut bodies: Vec<Box<dyn FnOnce(usize) + Send>> = vec![];
+    for ops in prog.threads.clone() {
+        let blk = blk.clone();
+        let dead_flags = dead_flags.clone();
+        // every thread's snapshot starts as the state of the untouched container (taken here, untraced)
+        let mut state = unsafe { blk.get().get().get_state() };
+        bodies.push(Box::new(move |tid| {
+            let c = blk.get().get();
+            let me = OwnerId::new(100 + tid as u64).unwrap();
+            let mut mine: Vec<ContainerHandle> = vec![];
+            let rs = |r: ReleaseState| match r { ReleaseState::Locked => "locked", ReleaseState::Unlocked => "unlocked" };
+            for op in ops {
+                let t: Vec<&str> = op.split(' ').collect();
+                let r: Option<String> = match t[0] {
+                    "add" => Some(match unsafe { c.add(words(t[1].parse().unwrap()), me) } {
+                        Ok((_, h)) => { let s = format!("ok:{}", h.index()); mine.push(h); s }
+                        Err(e) => format!("err:{e:?}"),
+                    }),
+                    "remove" | "remove_lock" => {
+                        let pos: usize = t[1].parse().unwrap();
+                        if pos < mine.len() {
+                            let h = mine.remove(pos);
+                            let mode = if t[0] == "remove" { ReleaseMode::Default } else { ReleaseMode::LockIfLastIndex };
+                            Some(match unsafe { c.remove(h, mode) } { Ok(st) => rs(st).into(), Err(_) => "err:NotOwned".into() })
+                        } else { None }
+                    }
+                    "update" => {
+                        let st = &mut state;
+                        let changed = unsafe { c.update_state(st) };
+                        if changed {
+                            let mut items = vec![];
+                            st.for_each(|i, v: &[u64; W]| { items.push(format!("{}={}", i, v.iter().map(|x| x.to_string()).collect::<Vec<_>>().join(","))); iceoryx2_bb_elementary::CallbackProgression::Continue });
+                            Some(format!("true {}", items.join(";")).trim_end().to_string())
+                        } else { Some("false".into()) }
+                    }
+                    "recover" | "recover_lock" if { sched::gate(tid); !dead_flags[t[1].parse::<usize>().unwrap() - 100].load(std::sync::atomic::Ordering::SeqCst) } => Some("skipped".into()),
+                    "recover" | "recover_lock" => {
+                        let dead: u64 = t[1].parse().unwrap();
+                        let mode = if t[0] == "recover" { ReleaseMode::Default } else { ReleaseMode::LockIfLastIndex };
+                        Some(rs(unsafe { c.recover(OwnerId::new(dead).unwrap(), |_| true, mode) }).to_string())
+                    }
+                    "die" => { dead_flags[tid].store(true, std::sync::atomic::Ordering::SeqCst); return; }
+                    _ => panic!("bad op"),
+                };
+                if let Some(r) = r {
+                    let name = t[0].trim_end_matches("_lock");
+                    sched::record(tid, format!("ret {} {}", name, r));
+                }
+            }
+        }));
+    }
+    sched::execute(bodies, schedule, random, seed, vec![r])
+}
+
 pub fn generate(component: &str, rng: &mut Rng) -> Prog {
     match component {
+        "event" => crate::event::generate(rng),
+        "container" => gen_container_prog(rng),
         "ruis" => gen_ruis_prog(rng),
         "uis" => gen_uis_prog(rng),
         "conn" => gen_conn_prog(rng, false),
@@ -476,9 +587,15 @@ pub fn generate(component: &str, rng: &mut Rng) -> Prog {
 pub fn run(component: &str, prog: &Prog, schedule: Vec<usize>, random: bool, seed: u64) -> Outcome {
     let cap = hget(&prog.header, "cap");
     match component {
+        "event" => crate::event::run(prog, schedule, random, seed),
         "conn" | "conn-misuse" => run_conn(prog, schedule, random, seed),
         "uis" => run_uis(prog, schedule, random, seed),
         "ruis" => run_ruis(prog, schedule, random, seed),
+        "container" => match hget(&prog.header, "width") {
+            1 => run_container::<1>(prog, schedule, random, seed),
+            2 => run_container::<2>(prog, schedule, random, seed),
+            _ => panic!("unsupported width"),
+        },
         "seqlock" => match hget(&prog.header, "width") {
             1 => run_seqlock::<1>(prog, schedule, random, seed),
             2 => run_seqlock::<2>(prog, schedule, random, seed),
